@@ -20,7 +20,7 @@ from vf.driver import sig_of
 
 ID = "C07"
 LEVEL = "fault_enumeration"
-STAGES = ["accepted", "connected", "sub", "suball", "paused", "logger"]
+STAGES = ["accepted", "connected", "sub", "suball", "paused", "logger", "accepted_sub", "accepted_suball"]
 WAYS = ["disc", "fin", "rst", "partial_fin", "partial_rst", "write", "refused_dup", "refused_range", "refused_name"]
 RULE = ("cases = way of leaving {DISCONNECT, FIN, RST, FIN/RST after every byte offset of a frame it was sending, reset "
         "discovered while the manager writes to it, refusal at connect (duplicate id, id out of range, duplicate name)} x "
@@ -52,10 +52,16 @@ def dep_steps(L, idn, name, d, tcode):
         # the departing connection is a newcomer whose handshake must be refused
         hello = {"refused_dup": {"mod_id": 12, "name": ""}, "refused_range": {"mod_id": d.get("bad_id", 150), "name": name},
                  "refused_name": {"mod_id": idn, "name": "surv"}}[way]
-        leave = [["open", L], ["round", {"only": []}], ["hello", L, dict(hello, v2=True)]]
+        leave = [["open", L], ["round", {"only": []}]]
+        if d.get("pre_sub"):
+            leave += [["sub", L, T], ["round", {"only": [L]}]]
+        leave.append(["hello", L, dict(hello, v2=True)])
         return setup, leave, False
     setup.append(["open", L])
-    if stage != "accepted":
+    if stage.startswith("accepted_"):
+        # subscribes without ever completing CONNECT (the manager accepts SUBSCRIBE on any accepted socket)
+        setup += [["drain"], ["sub", L, ALL if stage == "accepted_suball" else T]]
+    elif stage != "accepted":
         setup.append(["hello", L, {"mod_id": idn, "name": name, "logger": int(stage == "logger")}])
         setup.append(["drain"])
         if stage in ("sub", "paused"):
@@ -72,7 +78,7 @@ def dep_steps(L, idn, name, d, tcode):
         leave = [["close", L, way], ["await_closed", L]]
     elif way in ("partial_fin", "partial_rst"):
         fk = d.get("frame", "pub")
-        if stage == "accepted":
+        if stage.startswith("accepted"):
             fk = "hello"
         data = frame_for(fk, idn)
         if tcode:
@@ -142,7 +148,7 @@ def gen_cases(tier, seed):
     def valid(stage, way):
         if way.startswith("refused"):
             return stage == "accepted"
-        if stage == "accepted":
+        if stage.startswith("accepted"):
             return way in ("fin", "rst", "partial_fin", "partial_rst")
         return True
 
@@ -157,6 +163,9 @@ def gen_cases(tier, seed):
             for how in ("partial_fin", "partial_rst"):
                 st = "accepted" if fk == "hello" else rng.choice(["sub", "suball", "connected", "logger"])
                 add({"d1": {"stage": st, "way": how, "off": off, "frame": fk}, "trigger": rng.choice(["pub", "ctl"])})
+    for w in ("refused_dup", "refused_range", "refused_name"):
+        for trig in ("pub", "ctl"):
+            add({"d1": {"stage": "accepted", "way": w, "pre_sub": True}, "trigger": trig})
     for bad in (0x7FFF, -1, 101, 200, 201, -32768):
         add({"d1": {"stage": "accepted", "way": "refused_range", "bad_id": bad}, "trigger": "pub"})
     pairs = [(a, b) for a in singles for b in singles if not (a[1].startswith("refused") and b[1].startswith("refused"))]
